@@ -9,6 +9,7 @@ RULE = ('score tensors N(1-8) x C(2-40) x T(1-60) built from a chosen arg-max pa
         'margin >= 1e-2; plus batches pushed through the real PytorchEngineLineOCR.run_ocr with a stub net. '
         'non-trivial = some line has a non-empty transcription with a merged repeat or a dropped blank; distinct = hash of the arg-max paths Alphabets of 256-1000 classes; near ties (one ulp apart, no conversion between matrix and decoders) and raw scores around -1000 / +800; the previous run_ocr result re-checked after the next call. Alphabets up to 70000 classes; an engine whose network emits nearly equal class scores.')
 RULE += ' Round 6: Lines of 4094-9000 frames; a symbol ending in U+0000; the separator re-assigned on a live decoder; raw scores in the thousands.'
+RULE += ' Round 7: Single-precision scores beyond 2^24 with the batch maximum in a first frame; character tables as strings and arrays; Greek small alphabets.'
 ASSUMPTIONS = ['for exact arg-max ties (class exact_ties: quantised outputs) only the agreement of the engine decoder and the stand-alone decoder is required (the statement gives no tie rule for the reference collapse); frames of engine output with margin < 1e-4 are skipped as ambiguous elsewhere',
                'blank is the last class; 3-D tensors only (the 2-D branch of the engine decoder is not reachable from the repository)']
 N = {'quick': 5000, 'thorough': 300000}
